@@ -24,6 +24,7 @@ SPEC = {
         {"name": "TestValid", "quick": 1600, "thorough": 64000, "shards_quick": 4, "shards_thorough": 16, "timeout": 1800},
         {"name": "TestMutations", "quick": 4800, "thorough": 192000, "shards_quick": 6, "shards_thorough": 16, "timeout": 1800},
         {"name": "TestPlaceholders", "quick": 2400, "thorough": 96000, "shards_quick": 4, "shards_thorough": 16, "timeout": 1800},
+        {"name": "TestMultiPlaceholders", "quick": 1600, "thorough": 32000, "shards_quick": 4, "shards_thorough": 16, "timeout": 1800},
         {"name": "TestScenarioPlaceholders", "quick": 1600, "thorough": 64000, "shards_quick": 4, "shards_thorough": 16, "timeout": 1800},
         {"name": "TestDiscardOverflowDefault", "quick": 400, "thorough": 16000, "shards_quick": 2, "shards_thorough": 16, "timeout": 1800},
     ],
@@ -49,7 +50,13 @@ SPEC = {
              "and 1 of 3 others a decoy is defined next to the named variable / key: a name differing only in letter case (all "
              "upper, all lower, one letter flipped; environment names are case-sensitive on linux, property keys everywhere) or by "
              "one appended / removed character; it holds the text the field accepts when the case must be rejected (a fallback "
-             "lookup would be accepted silently) and a foreign text when the named variable is defined (the exact name must win). TestScenarioPlaceholders: a generated scenario description (0-3 variable sources of the types file/csv, file/json, "
+             "lookup would be accepted silently) and a foreign text when the named variable is defined (the exact name must win). TestMultiPlaceholders: ONE value holding 2-4 placeholders (env / property mixed, each standing for a slice "
+             "of the literal text, literal text possibly between them; distinct variables, property keys in a shared file or files "
+             "of their own), the position kind drawn first: a string field, a duration / size / level field, an item of a string "
+             "list (ammo headers, chosencases ...), a value of a string map (reflect_metadata). All placeholders resolve (2 of 5): "
+             "decodes like the literal. Otherwise one (1 in 5: two) of them names an unset variable / missing key / missing file, "
+             "at the first, a middle or the last place - in particular FOLLOWED by placeholders that resolve - and the "
+             "configuration must be rejected with an error. TestScenarioPlaceholders: a generated scenario description (0-3 variable sources of the types file/csv, file/json, "
              "variables; 1-2 http requests with headers, body, preprocessor mapping, var/header / var/jsonpath / var/xpath / "
              "assert/response postprocessors, templater and / or 1-2 grpc calls with metadata, prepare preprocessor, assert/response "
              "postprocessor; 1-2 scenarios; locals) is written as a YAML file on the mem fs and read with the providers' reader "
@@ -58,8 +65,11 @@ SPEC = {
              "embedded, unset / missing with and without decoy, invalid text for int / bool incl. weight -1 and assert size -1) and "
              "the decoded AmmoConfig (reflective dump, pointers and interfaces followed) must equal the literal's, resp. the file "
              "must be rejected with an error. TestDiscardOverflowDefault: generated YAML / JSON files with 1-3 pools, each "
-             "with discard_overflow true / false / absent, read by the real CLI reader (cli.ReadConfigForVerif -> readConfig: viper "
-             "from the OS file system, defaulting, decode): DiscardOverflow = true when absent, the given value otherwise. Each test "
+             "with discard_overflow true / false / absent, read by the real CLI reader (cli.ReadConfigForVerif -> readConfig: viper, "
+             "defaulting, decode) through every way `pandora [<config>]` takes a configuration: a path with extension, a path "
+             "without one (YAML), the single argument `-` with the text on the standard input (os.Stdin swapped for a file "
+             "under a mutex), no argument with ./load.<ext> or ./config/load.<ext> in the working directory (chdir into a "
+             "temp dir and back): DiscardOverflow = true when absent, the given value otherwise, whatever the source. Each test "
              "first runs the fixed witness cases of the findings it made (plain regression cases once a finding is fixed). Depth: root "
              "and pool keys 0, component keys and log / monitoring keys 1, nested struct / nested plugin / composite element keys >= 2. "
              "Non-trivial = mutation (or, for TestValid, a given key) at depth >= 2, a placeholder in a non-string field, a pool "
@@ -92,9 +102,21 @@ SPEC = {
         "TestScenarioPlaceholders/missing_with_decoy:case_variant:env": 0.01, "TestScenarioPlaceholders/section:requests": 0.2,
         "TestScenarioPlaceholders/section:calls": 0.1, "TestScenarioPlaceholders/section:scenarios": 0.1,
         "TestScenarioPlaceholders/section:variable_sources": 0.1,
+        "TestDiscardOverflowDefault/source:file": 0.15, "TestDiscardOverflowDefault/source:file_noext": 0.04,
+        "TestDiscardOverflowDefault/source:stdin": 0.15, "TestDiscardOverflowDefault/source:search_dir": 0.04,
+        "TestDiscardOverflowDefault/source:search_dir_config": 0.04, "TestDiscardOverflowDefault/some_pool_without_key:stdin": 0.06,
+        "TestDiscardOverflowDefault/some_pool_without_key:file": 0.08,
+        "TestMultiPlaceholders/multi:all_resolve": 0.25, "TestMultiPlaceholders/multi:unresolved": 0.3,
+        "TestMultiPlaceholders/unresolved_then_resolving": 0.25, "TestMultiPlaceholders/unresolved_then_resolving:string_field": 0.08,
+        "TestMultiPlaceholders/unresolved_then_resolving:textual_field": 0.04, "TestMultiPlaceholders/unresolved_then_resolving:list_item": 0.04,
+        "TestMultiPlaceholders/unresolved_then_resolving:map_value": 0.012, "TestMultiPlaceholders/unresolved_then_resolving:unset_env": 0.12,
+        "TestMultiPlaceholders/unresolved_then_resolving:missing_key": 0.03, "TestMultiPlaceholders/unresolved_then_resolving:missing_file": 0.03,
+        "TestMultiPlaceholders/unresolved_at:first": 0.15, "TestMultiPlaceholders/unresolved_at:middle": 0.04,
+        "TestMultiPlaceholders/unresolved_at:last": 0.04, "TestMultiPlaceholders/pos:map_value": 0.04,
+        "TestMultiPlaceholders/pos:list_item": 0.1, "TestMultiPlaceholders/srcs:mixed": 0.25,
         "TestDiscardOverflowDefault/some_pool_without_key": 0.21, "TestDiscardOverflowDefault/discard_overflow:given_true": 0.1,
         "TestDiscardOverflowDefault/discard_overflow:given_false": 0.1, "TestDiscardOverflowDefault/format:yaml": 0.31,
-        "TestDiscardOverflowDefault/format:json": 0.15,
+        "TestDiscardOverflowDefault/format:json": 0.1,
     },
     "required_classes": (["TestValid/comp:" + c for c in _COMPONENTS] + ["TestMutations/comp:" + c for c in _COMPONENTS]
                          + ["TestMutations/comp:pool/pool", "TestMutations/comp:cli/root", "TestPlaceholders/comp:pool/pool",
@@ -111,9 +133,12 @@ SPEC = {
                  "validate-tag violation, missing required key, bad type name) must be rejected with an error. Literal and "
                  "${env}/${property} variants must decode identically; unresolved placeholders (also when a variable / key of a "
                  "name differing only in letter case or by one character is defined) and placeholders resolving to text that "
-                 "is no value of the field must be rejected. The same literal-vs-placeholder comparison is made for every scalar "
+                 "is no value of the field must be rejected; a value holding several placeholders (string field, list item, map value) "
+                 "decodes like the literal when all resolve and is rejected when any one of them - also one followed by resolving "
+                 "ones - names nothing. The same literal-vs-placeholder comparison is made for every scalar "
                  "of generated scenario description files read by the scenario providers' reader. The CLI reader must decode discard_overflow as true exactly when the key is "
-                 "absent from a pool of the file."),
+                 "absent from a pool of the configuration, for every source the CLI reads it from (file argument with / without extension, "
+                 "standard input, ./load.* and ./config/load.* of the working directory)."),
         "note": ("Float-for-int (truncated by mapstructure by design), numbers or digit-only text for durations / sizes / levels (taken "
                  "as ns / bytes / level number), a string for a sink or source section (short form), placeholders in `type` keys, "
                  "unknown placeholder kinds (${foo:bar} is left verbatim), `pools: []`, a composite without `nested`, and the "
@@ -128,5 +153,6 @@ SPEC = {
         "the component table in internal/confgen mirrors core/import, components/phttp/import and components/grpc/import (a registered config type that differs from the table fails the check)",
         "decoded component configs are observed via plugin.New(kind, name, fill) with a fill callback that runs config.DecodeAndValidate like pluginconfig's hook, then aborts construction",
         "environment variables and the property files are process-global: every shard is its own process and evaluates its cases sequentially",
+        "os.Stdin and the working directory are swapped inside the test process (under a mutex, restored after each read) to reach the CLI reader's stdin and search-dir branches",
     ],
 }
